@@ -133,3 +133,228 @@ pub fn vx_at<'a>(m: &'a [Value], i: usize) -> (t: &'a Value)
     proof { lemma_subrange_push(m@, i as int); }
     &m[i]
 }
+
+// ==== 4th clause: the order of M is preserved when M and N agree on the order of their common elements ====
+
+// the elements common to a and b appear in the same relative order in both
+// (whenever a[i] occurs in b at k and a[j] occurs in b at l, i < j forces k < l)
+pub open spec fn compatible(a: Seq<Value>, b: Seq<Value>) -> bool {
+    forall|i: int, j: int, k: int, l: int| #![trigger a[i], a[j], b[k], b[l]]
+        0 <= i < j < a.len() && 0 <= k < b.len() && 0 <= l < b.len() && a[i] == b[k] && a[j] == b[l] ==> k < l
+}
+
+// position of x in s (meaningful when s.contains(x); unique when no_dup(s))
+pub open spec fn idx_of(s: Seq<Value>, x: Value) -> int { choose|i: int| 0 <= i < s.len() && s[i] == x }
+
+pub proof fn lemma_idx_of(s: Seq<Value>, x: Value)
+    requires s.contains(x),
+    ensures 0 <= idx_of(s, x) < s.len(), s[idx_of(s, x)] == x,
+{ }
+
+pub proof fn lemma_idx_unique(s: Seq<Value>, k: int)
+    requires no_dup(s), 0 <= k < s.len(),
+    ensures idx_of(s, s[k]) == k, s.contains(s[k]),
+{
+    assert(s.contains(s[k]));
+    lemma_idx_of(s, s[k]);
+}
+
+// inserting a fresh element shifts the positions at or after k by one and leaves the others alone
+pub proof fn lemma_idx_insert(s: Seq<Value>, k: int, v: Value, x: Value)
+    requires no_dup(s), !s.contains(v), 0 <= k <= s.len(), s.contains(x),
+    ensures
+        s.insert(k, v).contains(x),
+        idx_of(s.insert(k, v), x) == (if idx_of(s, x) >= k { idx_of(s, x) + 1 } else { idx_of(s, x) }),
+{
+    let s2 = s.insert(k, v);
+    lemma_insert_props(s, k, v);
+    lemma_idx_of(s, x);
+    let i = idx_of(s, x);
+    let i2 = if i >= k { i + 1 } else { i };
+    assert(s2[i2] == x);
+    lemma_idx_unique(s2, i2);
+}
+
+pub proof fn lemma_idx_insert_new(s: Seq<Value>, k: int, v: Value)
+    requires no_dup(s), !s.contains(v), 0 <= k <= s.len(),
+    ensures idx_of(s.insert(k, v), v) == k, no_dup(s.insert(k, v)),
+{
+    let s2 = s.insert(k, v);
+    lemma_insert_props(s, k, v);
+    assert(s2[k] == v);
+    lemma_idx_unique(s2, k);
+}
+
+// a subsequence embedding into a duplicate-free sequence preserves relative order
+pub proof fn lemma_order_preserved(a: Seq<Value>, b: Seq<Value>, x: Value, y: Value)
+    requires is_subseq(a, b), no_dup(b), a.contains(x), a.contains(y), idx_of(a, x) < idx_of(a, y),
+    ensures b.contains(x), b.contains(y), idx_of(b, x) < idx_of(b, y),
+{
+    let pos = choose|pos: Seq<int>| embeds(a, b, pos);
+    lemma_idx_of(a, x); lemma_idx_of(a, y);
+    let i = idx_of(a, x); let j = idx_of(a, y);
+    assert(b[pos[i]] == x && b[pos[j]] == y);
+    lemma_idx_unique(b, pos[i]);
+    lemma_idx_unique(b, pos[j]);
+}
+
+// compatible, in terms of idx_of
+pub proof fn lemma_compatible_idx(a: Seq<Value>, b: Seq<Value>, i: int, j: int)
+    requires compatible(a, b), 0 <= i < j < a.len(), b.contains(a[i]), b.contains(a[j]),
+    ensures idx_of(b, a[i]) < idx_of(b, a[j]),
+{
+    lemma_idx_of(b, a[i]); lemma_idx_of(b, a[j]);
+    let k = idx_of(b, a[i]); let l = idx_of(b, a[j]);
+    assert(a[i] == b[k] && a[j] == b[l]);
+}
+
+// State of the main loop of merge_arrays after c elements of m were processed (n0 = N at entry, n = N now,
+// ins = ins_pos_in_n, piv = pivot_pos_in_m):
+//  c == 0: nothing inserted yet; piv is the first element of m that occurs in n0 (m.len() if none), found at ins
+//  c >= 1: I1 n[ins] is the element processed last; the pre-pivot branch is dead (piv == 0)
+//  I2: m[0..c] occurs in n in order
+//  I3: the elements of m still to come that are already in n all sit strictly after ins
+pub open spec fn merge_inv(m: Seq<Value>, n0: Seq<Value>, n: Seq<Value>, c: int, ins: int, piv: int) -> bool {
+    &&& 0 <= c <= m.len() && 0 <= ins < n.len()
+    &&& (c == 0 ==> n == n0 && 0 <= piv <= m.len()
+            && (forall|j: int| 0 <= j < piv ==> !n0.contains(#[trigger] m[j]))
+            && (piv < m.len() ==> n[ins] == m[piv]))
+    &&& (c >= 1 ==> piv == 0 && n[ins] == m[c - 1])
+    &&& (forall|i: int, j: int| 0 <= i < j < c ==> idx_of(n, #[trigger] m[i]) < idx_of(n, #[trigger] m[j]))
+    &&& (c >= 1 ==> forall|j: int| c <= j < m.len() && n0.contains(#[trigger] m[j]) ==> idx_of(n, m[j]) > ins)
+}
+
+// one iteration of the main loop on t = m[c], as a relation on (n, ins, piv)
+pub open spec fn merge_step(t: Value, n: Seq<Value>, c: int, ins: int, piv: int, n2: Seq<Value>, ins2: int, piv2: int) -> bool {
+    ||| (0 <= ins2 < n.len() && n[ins2] == t && n2 == n && piv2 == piv)
+    ||| (!n.contains(t) && c < piv && n2 == n.insert(ins, t) && ins2 == ins && piv2 == c)
+    ||| (!n.contains(t) && c >= piv && n2 == n.insert(ins + 1, t) && ins2 == ins + 1 && piv2 == piv)
+}
+
+pub open spec fn merge_members(m: Seq<Value>, n0: Seq<Value>, n: Seq<Value>, c: int) -> bool {
+    forall|x: Value| n.contains(x) <==> (n0.contains(x) || m.subrange(0, c).contains(x))
+}
+
+pub proof fn lemma_merge_prefix(m: Seq<Value>, n0: Seq<Value>, n: Seq<Value>, c: int)
+    requires no_dup(m), 0 <= c <= m.len(), merge_members(m, n0, n, c),
+    ensures
+        forall|i: int| 0 <= i < c ==> n.contains(#[trigger] m[i]),
+        forall|j: int| c <= j < m.len() ==> (n.contains(#[trigger] m[j]) <==> n0.contains(m[j])),
+{
+    let p = m.subrange(0, c);
+    assert forall|i: int| 0 <= i < c implies n.contains(#[trigger] m[i]) by { assert(p[i] == m[i]); assert(p.contains(m[i])); }
+    assert forall|j: int| c <= j < m.len() implies (n.contains(#[trigger] m[j]) <==> n0.contains(m[j])) by {
+        if p.contains(m[j]) { let i = choose|i: int| 0 <= i < p.len() && p[i] == m[j]; assert(m[i] == m[j]); }
+    }
+}
+
+pub proof fn lemma_merge_step(m: Seq<Value>, n0: Seq<Value>, n: Seq<Value>, c: int, ins: int, piv: int, n2: Seq<Value>, ins2: int, piv2: int)
+    requires
+        no_dup(m), no_dup(n0), no_dup(n), 0 <= c < m.len(),
+        is_subseq(n0, n), merge_members(m, n0, n, c), compatible(m, n0),
+        merge_inv(m, n0, n, c, ins, piv),
+        merge_step(m[c], n, c, ins, piv, n2, ins2, piv2),
+    ensures merge_inv(m, n0, n2, c + 1, ins2, piv2),
+{
+    let t = m[c];
+    lemma_merge_prefix(m, n0, n, c);
+    if c >= 1 { lemma_idx_unique(n, ins); }
+    // the processed prefix sits at positions <= ins
+    assert forall|i: int| 0 <= i < c implies idx_of(n, #[trigger] m[i]) <= ins by { }
+    if 0 <= ins2 < n.len() && n[ins2] == t && n2 == n && piv2 == piv {
+        lemma_merge_step_found(m, n0, n, c, ins, piv, ins2);
+    } else if !n.contains(t) && c < piv {
+        lemma_merge_step_pre(m, n0, n, c, ins, piv);
+    } else {
+        lemma_merge_step_post(m, n0, n, c, ins, piv);
+    }
+}
+
+pub proof fn lemma_merge_step_found(m: Seq<Value>, n0: Seq<Value>, n: Seq<Value>, c: int, ins: int, piv: int, ins2: int)
+    requires
+        no_dup(m), no_dup(n0), no_dup(n), 0 <= c < m.len(),
+        is_subseq(n0, n), merge_members(m, n0, n, c), compatible(m, n0),
+        merge_inv(m, n0, n, c, ins, piv),
+        0 <= ins2 < n.len(), n[ins2] == m[c],
+    ensures merge_inv(m, n0, n, c + 1, ins2, piv),
+{
+    let t = m[c];
+    lemma_merge_prefix(m, n0, n, c);
+    lemma_idx_unique(n, ins2);
+    assert(n0.contains(t));
+    if c >= 1 { lemma_idx_unique(n, ins); }
+    assert(piv == 0);
+    assert forall|i: int, j: int| 0 <= i < j < c + 1 implies idx_of(n, #[trigger] m[i]) < idx_of(n, #[trigger] m[j]) by {
+        if j == c {
+            assert(idx_of(n, m[c]) > ins);
+            if i < c - 1 { assert(idx_of(n, m[i]) < idx_of(n, m[c - 1])); }
+        }
+    }
+    assert forall|j: int| c + 1 <= j < m.len() && n0.contains(#[trigger] m[j]) implies idx_of(n, m[j]) > ins2 by {
+        lemma_compatible_idx(m, n0, c, j);
+        lemma_order_preserved(n0, n, t, m[j]);
+    }
+}
+
+pub proof fn lemma_merge_step_pre(m: Seq<Value>, n0: Seq<Value>, n: Seq<Value>, c: int, ins: int, piv: int)
+    requires
+        no_dup(m), no_dup(n0), no_dup(n), 0 <= c < m.len(),
+        is_subseq(n0, n), merge_members(m, n0, n, c), compatible(m, n0),
+        merge_inv(m, n0, n, c, ins, piv),
+        !n.contains(m[c]), c < piv,
+    ensures merge_inv(m, n0, n.insert(ins, m[c]), c + 1, ins, c),
+{
+    let t = m[c];
+    let n2 = n.insert(ins, t);
+    assert(c == 0 && n == n0);
+    lemma_idx_insert_new(n, ins, t);
+    assert(n2[ins] == t);
+    assert forall|j: int| 1 <= j < m.len() && n0.contains(#[trigger] m[j]) implies idx_of(n2, m[j]) > ins by {
+        lemma_idx_insert(n, ins, t, m[j]);
+        assert(j >= piv);
+        if j == piv { lemma_idx_unique(n, ins); }
+        else {
+            assert(n0.contains(m[piv])) by { lemma_idx_unique(n, ins); }
+            lemma_compatible_idx(m, n0, piv, j);
+            lemma_idx_unique(n, ins);
+        }
+    }
+}
+
+pub proof fn lemma_merge_step_post(m: Seq<Value>, n0: Seq<Value>, n: Seq<Value>, c: int, ins: int, piv: int)
+    requires
+        no_dup(m), no_dup(n0), no_dup(n), 0 <= c < m.len(),
+        is_subseq(n0, n), merge_members(m, n0, n, c), compatible(m, n0),
+        merge_inv(m, n0, n, c, ins, piv),
+        !n.contains(m[c]), c >= piv,
+    ensures merge_inv(m, n0, n.insert(ins + 1, m[c]), c + 1, ins + 1, piv),
+{
+    let t = m[c];
+    let n2 = n.insert(ins + 1, t);
+    lemma_merge_prefix(m, n0, n, c);
+    if c == 0 { assert(n[ins] == t); assert(n.contains(t)); }
+    assert(c >= 1);
+    lemma_idx_unique(n, ins);
+    lemma_idx_insert_new(n, ins + 1, t);
+    assert(n2[ins + 1] == t);
+    assert forall|i: int| 0 <= i < c implies idx_of(n2, #[trigger] m[i]) == idx_of(n, m[i]) && idx_of(n, m[i]) <= ins by {
+        lemma_idx_insert(n, ins + 1, t, m[i]);
+        if i < c - 1 { assert(idx_of(n, m[i]) < idx_of(n, m[c - 1])); }
+    }
+    assert forall|i: int, j: int| 0 <= i < j < c + 1 implies idx_of(n2, #[trigger] m[i]) < idx_of(n2, #[trigger] m[j]) by { }
+    assert forall|j: int| c + 1 <= j < m.len() && n0.contains(#[trigger] m[j]) implies idx_of(n2, m[j]) > ins + 1 by {
+        lemma_idx_insert(n, ins + 1, t, m[j]);
+    }
+}
+
+pub proof fn lemma_merge_final(m: Seq<Value>, n0: Seq<Value>, n: Seq<Value>, ins: int, piv: int)
+    requires no_dup(m), no_dup(n), merge_members(m, n0, n, m.len() as int), merge_inv(m, n0, n, m.len() as int, ins, piv),
+    ensures is_subseq(m, n),
+{
+    lemma_merge_prefix(m, n0, n, m.len() as int);
+    let pos = Seq::new(m.len(), |i: int| idx_of(n, m[i]));
+    assert forall|i: int| 0 <= i < m.len() implies 0 <= #[trigger] pos[i] < n.len() && n[pos[i]] == m[i] by {
+        lemma_idx_of(n, m[i]);
+    }
+    assert(embeds(m, n, pos));
+}
